@@ -57,7 +57,10 @@ JudgeLex(o) ==
         ELSE IF o.kind = "append" THEN
              IF Len(o.text) = 0 THEN cb = ca
              ELSE IF o.location = "start" THEN Len(cb) = Len(ca) + 1 /\ SubSeq(cb, 2, Len(cb)) = ca /\ Contains(cb[1], o.text)
-             ELSE Len(cb) = Len(ca) + 1 /\ SubSeq(cb, 1, Len(ca)) = ca /\ Contains(cb[Len(cb)], o.text)
+             ELSE \/ Len(cb) = Len(ca) + 1 /\ SubSeq(cb, 1, Len(ca)) = ca /\ Contains(cb[Len(cb)], o.text)
+                  \* appended right after a trailing line comment: the text simply extends that comment
+                  \/ Len(cb) = Len(ca) /\ Len(ca) > 0 /\ SubSeq(cb, 1, Len(ca) - 1) = SubSeq(ca, 1, Len(ca) - 1)
+                     /\ HasPrefix(cb[Len(cb)], ca[Len(ca)]) /\ Contains(cb[Len(cb)], o.text)
         ELSE TRUE IN
   LET lines ==
         IF o.kind = "append" THEN (IF o.location = "end" \/ Len(o.text) = 0 THEN uniform /\ shift = 0 ELSE uniform)
